@@ -367,13 +367,14 @@ Section S3.
   Variable f : features.
   Variable is_lower is_upper : string -> bool.
 
-  Lemma step3_register_ok s consts bn inp outp t sigs dfl rname w d v :
+  Lemma step3_register_ok s consts bn inp outp t sigs dfl rname w d v wc :
     let in_name := (inp ++ "_" ++ rname)%string in
     let out_name := (outp ++ "_" ++ rname)%string in
     ~ In in_name (s_decls s) -> ~ In out_name (s_decls s) ->
     (forall rf, In rf (refs d) -> has (s_wires s) rf && negb (has consts rf) = false) ->
     ~ In out_name (map fst dfl) -> has (s_assigns s) out_name = false ->
     ~ In out_name (t_seen t) -> ~ In in_name (t_seen t) -> in_name <> out_name ->
+    check f (cenv consts) (lookup consts) d = Ok wc ->
     eval f (lookup consts) d = Ok v -> wcombine (wd v) w <> None ->
     exists t',
       step3_register f s consts bn inp outp (t, sigs, dfl) (rname, w, d) =
@@ -381,8 +382,8 @@ Section S3.
       t_errs t' = t_errs t /\ t_banks t' = t_banks t /\
       t_seen t' = add_set in_name (add_set out_name (t_seen t)).
   Proof.
-    intros in_name out_name H1 H2 H3 H4 H5 H6 H7 H8 H9 H10.
-    unfold step3_register. cbv beta iota zeta. fold in_name. fold out_name.
+    intros in_name out_name H1 H2 H3 H4 H5 H6 H7 H8 Hck H9 H10.
+    unfold step3_register. cbv beta iota zeta. fold in_name. fold out_name. unfold cenv in Hck.
     apply mem_str_false in H1, H2. apply has_false in H4.
     assert (H7' : mem_str in_name (add_set out_name (t_seen t)) = false).
     { apply mem_str_false. rewrite add_set_In. intros [H|H]; [exact (H7 H) | exact (H8 H)]. }
@@ -390,7 +391,7 @@ Section S3.
     cbn [flat_map]. rewrite H1, H2, H4, H5, H6, H7'.
     rewrite (flat_map_all_nil _ (nodup_str (refs d))).
     2:{ intros rf Hrf. apply (proj1 (nodup_str_In rf (refs d))) in Hrf. rewrite (H3 rf Hrf). reflexivity. }
-    cbn [app]. rewrite H9.
+    cbn [app]. rewrite Hck, H9.
     destruct (wcombine (wd v) w) as [w0|]; [|contradiction H10; reflexivity].
     eexists. split; [reflexivity|]. cbn [t_errs t_banks t_seen]. rewrite app_nil_r. auto.
   Qed.
@@ -403,6 +404,7 @@ Section S3.
   Definition reg_cond (s : st1) (consts : list (string * wval)) (o : string) (r : string * width * expr) : Prop :=
     (forall rf, In rf (refs (snd r)) -> has (s_wires s) rf && negb (has consts rf) = false) /\
     has (s_assigns s) (o ++ "_" ++ fst (fst r))%string = false /\
+    (exists wc, check f (cenv consts) (lookup consts) (snd r) = Ok wc) /\
     exists v, eval f (lookup consts) (snd r) = Ok v /\ wcombine (wd v) (snd (fst r)) <> None.
 
   Lemma step3_regs_ok s consts bn inp outp : forall regs t sigs dfl,
@@ -423,11 +425,11 @@ Section S3.
       set (in_name := (inp ++ "_" ++ rname)%string) in *.
       set (out_name := (outp ++ "_" ++ rname)%string) in *.
       apply NoDup_cons_iff in Hnd. destruct Hnd as [Ho Hnd]. apply NoDup_cons_iff in Hnd. destruct Hnd as [Hi Hnd].
-      destruct (Hregs (rname, w, d) (or_introl eq_refl)) as [R1 [R2 [v [R3 R4]]]]. cbn [fst snd] in R1, R2, R3, R4.
+      destruct (Hregs (rname, w, d) (or_introl eq_refl)) as [R1 [R2 [[wc Rck] [v [R3 R4]]]]]. cbn [fst snd] in R1, R2, Rck, R3, R4.
       fold out_name in R2.
       destruct (Hfresh out_name (or_introl eq_refl)) as [Fo1 Fo2].
       destruct (Hfresh in_name (or_intror (or_introl eq_refl))) as [Fi1 Fi2].
-      destruct (step3_register_ok s consts bn inp outp t sigs dfl rname w d v) as [t1 [E1 [E2 [E3 E4]]]];
+      destruct (step3_register_ok s consts bn inp outp t sigs dfl rname w d v wc) as [t1 [E1 [E2 [E3 E4]]]];
         try assumption.
       { intros H. apply Fo1. apply Hdfl. exact H. }
       { intros H. apply Ho. left. exact H. }
@@ -527,6 +529,61 @@ Section S3.
           -- rewrite I2, B2, <- app_assoc. reflexivity.
           -- constructor; assumption.
   Qed.
+
+  (* the control signals left to their default *)
+  Definition specials_of (b : string * list (string * width * expr)) : list string :=
+    match bank_letters (fst b) with
+    | Some (_, o) => [("stall_" ++ o)%string; ("bubble_" ++ o)%string]
+    | None => []
+    end.
+
+  Definition bank_name_ok (b : string * list (string * width * expr)) : Prop :=
+    exists i o, bank_letters (fst b) = Some (i, o) /\ is_lower i = true /\ is_upper o = true.
+
+  Lemma step3_bank_defaulted s consts t b :
+    bank_name_ok b ->
+    forall x, In x (t_defaulted (step3_bank f is_lower is_upper s consts t b)) <->
+              In x (t_defaulted t) \/ (In x (specials_of b) /\ has (s_assigns s) x = false).
+  Proof.
+    destruct b as [name regs]. intros [i [o [Hl [Hlo Hup]]]] x. unfold specials_of. cbn [fst] in *. rewrite Hl.
+    unfold step3_bank. rewrite (bank_letters_inv name i o Hl). rewrite Hlo, Hup. cbn [negb orb].
+    match goal with
+    | |- context [fold_left ?F regs ?A] =>
+        pose proof (step3_regs_keep f s consts name i o regs A) as Hk;
+        destruct (fold_left F regs A) as [[t2 sigs] defaults]
+    end.
+    destruct Hk as [_ K2]. cbn [r_t fst t_defaulted] in K2. cbn [t_defaulted]. rewrite K2.
+    rewrite fold_add_set_In, in_app_iff. cbn [In].
+    destruct (has (s_assigns s) ("stall_" ++ o)) eqn:E1; destruct (has (s_assigns s) ("bubble_" ++ o)) eqn:E2;
+      cbn [In]; split.
+    - intros [H|[[]|[]]]. left. exact H.
+    - intros [H|[[H|[H|[]]] Hf]]; [left; exact H | subst x; rewrite E1 in Hf; discriminate Hf
+                                   | subst x; rewrite E2 in Hf; discriminate Hf].
+    - intros [H|[[]|[H|[]]]]; [left; exact H|]. subst x. right. split; [right; left; reflexivity | exact E2].
+    - intros [H|[[H|[H|[]]] Hf]]; [left; exact H | subst x; rewrite E1 in Hf; discriminate Hf|].
+      right. right. left. exact H.
+    - intros [H|[[H|[]]|[]]]; [left; exact H|]. subst x. right. split; [left; reflexivity | exact E1].
+    - intros [H|[[H|[H|[]]] Hf]]; [left; exact H | right; left; left; exact H|].
+      subst x. rewrite E2 in Hf. discriminate Hf.
+    - intros [H|[[H|[]]|[H|[]]]]; [left; exact H | |]; subst x; right.
+      + split; [left; reflexivity | exact E1].
+      + split; [right; left; reflexivity | exact E2].
+    - intros [H|[[H|[H|[]]] Hf]]; [left; exact H | right; left; left; exact H | right; right; left; exact H].
+  Qed.
+
+  Lemma step3_banks_defaulted s consts : forall banks t,
+    (forall b, In b banks -> bank_name_ok b) ->
+    forall x, In x (t_defaulted (fold_left (step3_bank f is_lower is_upper s consts) banks t)) <->
+              In x (t_defaulted t) \/ (In x (flat_map specials_of banks) /\ has (s_assigns s) x = false).
+  Proof.
+    induction banks as [|b banks IH]; intros t Hok x; cbn [fold_left flat_map].
+    - cbn [In]. tauto.
+    - rewrite IH by (intros b0 Hb0; apply Hok; right; exact Hb0).
+      rewrite (step3_bank_defaulted s consts t b (Hok b (or_introl eq_refl)) x), in_app_iff. tauto.
+  Qed.
+
+  Lemma bank_cond_name_ok s consts b : bank_cond s consts b -> bank_name_ok b.
+  Proof. intros [i [o [H1 [H2 [H3 _]]]]]. exists i, o. auto. Qed.
 
 End S3.
 
@@ -1191,14 +1248,16 @@ Section Complete.
             unfold bank_specials. apply in_flat_map. exists b. split; [exact Hb|]. rewrite Hl. exact Hx. }
           split; [apply Hsp; left; reflexivity|]. split; [apply Hsp; right; left; reflexivity|].
           intros r Hr. pose proof (In_bank_regs b i o r Hb Hl Hr) as Hx.
-          split; [|split].
+          split; [|split; [|split]].
           + intros rf Hrf.
-            destruct (ff_init_no_wire _ _ _ _ _ _ _ FF _ rf Hx Hrf) as [Hc|[Hw Hfx]].
-            * apply consts_has in Hc. rewrite Hc. apply andb_false_r.
-            * rewrite (proj2 (wires_has_false rf)); [reflexivity | split; assumption].
+            pose proof (ff_init_closed _ _ _ _ _ _ _ FF _ rf Hx Hrf) as Hc.
+            apply consts_has in Hc. rewrite Hc. apply andb_false_r.
           + rewrite ph_a_assigns. apply has_false. rewrite assign_exprs_names. intros Ha.
             destruct (ff_no_driver _ _ _ _ _ _ _ FF _ Ha) as [_ [_ Hno]]. apply Hno.
             unfold bank_outputs. apply in_map_iff. eexists. split; [|exact Hx]. reflexivity.
+          + destruct (ff_init_width _ _ _ _ _ _ _ FF _ Hx) as [wc Hwc]. cbn [reg_init snd] in Hwc.
+            exists wc. rewrite (check_ext f (cenv consts) (cwidth cv) (lookup consts) cv); [apply check_iff; exact Hwc|].
+            intros n _. unfold cenv, cwidth. rewrite Hcv. split; reflexivity.
           + destruct (ff_init_eval _ _ _ _ _ _ _ FF _ Hx) as [v [H1 H2]]. cbn [reg_init reg_width fst snd] in H1, H2.
             exists v. split; [|exact H2]. rewrite (eval_ext f (lookup consts) cv); [exact H1|].
             intros n _. apply Hcv.
@@ -1207,6 +1266,16 @@ Section Complete.
           apply (ff_bank_signals_undeclared _ _ _ _ _ _ _ FF). apply in_or_app. left.
           rewrite bank_signal_names_eq. exact Hx.
         - exists nb. cbn [t_errs t_banks app] in B1, B2. split; [exact B1|]. split; [exact B2 | exact B3].
+      Qed.
+
+      Lemma ph_d_dfl x : In x (t_defaulted tT) <-> defaulted stmts x.
+      Proof.
+        rewrite ph_a_banks.
+        rewrite (step3_banks_defaulted f is_lower is_upper sS consts (bank_decls stmts)).
+        2:{ intros b Hb. apply (ff_bank_name _ _ _ _ _ _ _ FF b Hb). }
+        cbn [t_defaulted In]. unfold defaulted.
+        change (flat_map specials_of (bank_decls stmts)) with (bank_specials stmts).
+        rewrite ph_a_assigns, has_false, assign_exprs_names. tauto.
       Qed.
 
       Section AfterBanks.
@@ -1273,10 +1342,10 @@ Section Complete.
 
         (* ---- phases f, g, h: assignments_to_actions ----------------------------------------- *)
         Lemma known_false x :
-          mem_str x (bank_outputs stmts ++ map fst consts) = false <->
-          ~ In x (bank_outputs stmts) /\ ~ In x (const_names stmts).
+          mem_str x (bank_outputs stmts ++ t_defaulted tT ++ map fst consts) = false <->
+          ~ In x (bank_outputs stmts) /\ ~ defaulted stmts x /\ ~ In x (const_names stmts).
         Proof.
-          rewrite mem_str_false, in_app_iff, consts_keys. tauto.
+          rewrite mem_str_false, !in_app_iff, consts_keys, ph_d_dfl. tauto.
         Qed.
 
         Lemma all_assigned_iff c : all_assigned (assign_exprs stmts) c <-> inputs_assigned stmts c.
@@ -1308,10 +1377,10 @@ Section Complete.
 
         Lemma ph_fgh : exists acts,
           assignments_to_actions f fixed (widths_of sS tT consts) consts (s_assigns sS)
-            (all_out_names (t_banks tT) ++ map fst consts) (s_decls sS) = Ok acts.
+            (all_out_names (t_banks tT) ++ t_defaulted tT ++ map fst consts) (s_decls sS) = Ok acts.
         Proof.
           rewrite ph_a_assigns, Hbanks, banks_outs.
-          set (A := assign_exprs stmts). set (known := bank_outputs stmts ++ map fst consts).
+          set (A := assign_exprs stmts). set (known := bank_outputs stmts ++ t_defaulted tT ++ map fst consts).
           assert (HA1 : NoDup (map fst A)).
           { unfold A. rewrite assign_exprs_names. apply (ff_assigned_once _ _ _ _ _ _ _ FF). }
           destruct (assign_graph_facts A known HA1) as [G1 [G2 G3]].
@@ -1328,10 +1397,11 @@ Section Complete.
             assert (Hofx : In o (fixed_out_names fixed)) by (apply (In_fixed_out_names fixed c o w Hc Ho)).
             apply assign_graph_nodes in Hnode. destruct Hnode as [Hnode|[y [e [H1 [H2 H3]]]]].
             + exfalso. apply (Hnotout o Hofx). unfold A in Hnode. rewrite assign_exprs_names in Hnode. exact Hnode.
-            + apply known_false in H3. destruct H3 as [K1 K2].
-              destruct (ff_reads_driven _ _ _ _ _ _ _ FF y e o H1 H2) as [H|[H|[H|[c' [w' [Hc' [Ho' Hia]]]]]]].
+            + apply known_false in H3. destruct H3 as [K1 [K3 K2]].
+              destruct (ff_reads_driven _ _ _ _ _ _ _ FF y e o H1 H2) as [H|[H|[H|[H|[c' [w' [Hc' [Ho' Hia]]]]]]]].
               * contradiction.
               * contradiction.
+              * exfalso. apply K3. split; [exact H | apply Hnotout; exact Hofx].
               * exfalso. exact (Hnotout o Hofx H).
               * rewrite (out_unique c c' o w w' Hc Hc' Ho Ho'). exact Hia.
           - intros o Ho. apply has_false. unfold A. rewrite assign_exprs_names. apply Hnotout. exact Ho.
@@ -1348,7 +1418,7 @@ Section Complete.
             { apply (acyclic_no_cycle (wire_reads fixed stmts)); [apply (ff_acyclic _ _ _ _ _ _ _ FF)|].
               intros a b Hab. apply F3 in Hab. destruct Hab as [Hab|[c [w [Hc [Hall [Ho Hi]]]]]].
               - apply G2 in Hab. destruct Hab as [e [H1 [H2 H3]]]. apply known_false in H3.
-                left. exists e. split; [exact H1|]. split; [exact H2|]. split; [apply H3 | apply H3].
+                left. exists e. split; [exact H1|]. split; [exact H2|]. split; [apply H3|]. split; apply H3.
               - right. exists c, w. split; [exact Hc|]. split; [apply all_assigned_iff; exact Hall|].
                 split; assumption. }
             destruct (toposort_exact string String.eqb String.eqb_eq g' F2) as [_ Hto].
@@ -1363,10 +1433,13 @@ Section Complete.
             { intros n Hn. apply L2 in Hn. apply F4 in Hn. destruct Hn as [Hn|[c [Hc [Hall [Hn|[w Hn]]]]]].
               - apply assign_graph_nodes in Hn. destruct Hn as [Hn|[y [e [H1 [H2 H3]]]]].
                 + left. apply assigned_entry. unfold A in Hn. rewrite assign_exprs_names in Hn. exact Hn.
-                + apply known_false in H3. destruct H3 as [K1 K2].
-                  destruct (ff_reads_driven _ _ _ _ _ _ _ FF y e n H1 H2) as [H|[H|[H|[c [w [Hc [Ho Hia]]]]]]].
+                + apply known_false in H3. destruct H3 as [K1 [K3 K2]].
+                  destruct (ff_reads_driven _ _ _ _ _ _ _ FF y e n H1 H2) as [H|[H|[H|[H|[c [w [Hc [Ho Hia]]]]]]]].
                   * contradiction.
                   * contradiction.
+                  * destruct (in_dec string_dec n (assigned_names stmts)) as [Ha|Ha].
+                    -- left. apply assigned_entry. exact Ha.
+                    -- exfalso. apply K3. split; assumption.
                   * left. apply assigned_entry. exact H.
                   * right. apply (Hout_entry c w n Hc); [apply all_assigned_iff; exact Hia | exact Ho].
               - left. apply assigned_entry. apply assign_has. apply Hall. exact Hn.
@@ -1604,6 +1677,7 @@ Section S3Inv.
     (forall rf, In rf (refs d) -> has (s_wires s) rf && negb (has consts rf) = false) /\
     ~ In out_name (map fst dfl) /\ has (s_assigns s) out_name = false /\
     ~ In out_name (t_seen t) /\ ~ In in_name (t_seen t) /\ in_name <> out_name /\
+    (exists wc, check f (cenv consts) (lookup consts) d = Ok wc) /\
     exists v, eval f (lookup consts) d = Ok v /\ wcombine (wd v) w <> None.
   Proof.
     intros in_name out_name. unfold step3_register. cbv beta iota zeta. fold in_name. fold out_name.
@@ -1629,11 +1703,16 @@ Section S3Inv.
         apply (flat_map_nil_inv _ _ E2) in Hrf'. cbv beta in Hrf'.
         destruct (has (s_wires s) rf && negb (has consts rf)); [|reflexivity].
         exfalso. revert Hrf'. apply errs_for_nonempty. apply count_str_pos. exact Hrf. }
+      fold (cenv consts).
+      destruct (check f (cenv consts) (lookup consts) d) as [wc|esc] eqn:Eck.
+      2:{ cbn [fst t_errs]. intros He. apply app_eq_nil in He. destruct He as [_ He]. exfalso. subst esc.
+          apply (check_err f _ _ d [] Eck). reflexivity. }
       destruct (eval f (lookup consts) d) as [v|es] eqn:Eev; cbn [fst t_errs]; intros He;
         apply app_eq_nil in He; destruct He as [He He2].
       + split; [exact He|]. split; [exact D1|]. split; [exact D2|]. split; [exact Hnc|]. split; [exact D3|].
         split; [reflexivity|]. split; [exact D5|]. split; [intros H; apply D6; left; exact H|].
-        split; [intros H; apply D6; right; exact H|]. exists v. split; [reflexivity|].
+        split; [intros H; apply D6; right; exact H|]. split; [exists wc; reflexivity|].
+        exists v. split; [reflexivity|].
         destruct (wcombine (wd v) w); [discriminate | discriminate He2].
       + exfalso. subst es. apply (eval_err f (lookup consts) d [] Eev). reflexivity.
     - cbn [fst t_errs]. intros He. apply app_eq_nil in He. destruct He as [_ He]. discriminate He.
@@ -1653,8 +1732,8 @@ Section S3Inv.
       { apply (fold_errs_grow (fun a => t_errs (fst (fst a))) (step3_register f s consts bn inp outp)) with (l := regs);
           [|exact He]. intros a r. apply (step3_register_errs f s consts bn inp outp a r). }
       destruct (step3_register_noerr s consts bn inp outp t sigs dfl rname w d He1)
-        as [H0 [H1 [H2 [H3 [H4 [H5 [H6 [H7 [H8 [v [H9 H10]]]]]]]]]]].
-      destruct (step3_register_ok f s consts bn inp outp t sigs dfl rname w d v H1 H2 H3 H4 H5 H6 H7 H8 H9 H10)
+        as [H0 [H1 [H2 [H3 [H4 [H5 [H6 [H7 [H8 [[wc Hck] [v [H9 H10]]]]]]]]]]]].
+      destruct (step3_register_ok f s consts bn inp outp t sigs dfl rname w d v wc H1 H2 H3 H4 H5 H6 H7 H8 Hck H9 H10)
         as [t1 [E1 [E2 [E3 E4]]]].
       rewrite E1 in He.
       set (in_name := (inp ++ "_" ++ rname)%string) in *.
@@ -1676,7 +1755,8 @@ Section S3Inv.
         * destruct (I2 x Hx) as [Hs Hd]. split; [|exact Hd]. intros Hseen. apply Hs.
           rewrite E4, !add_set_In. left. left. exact Hseen.
       + intros r [<-|Hr].
-        * unfold reg_cond. cbn [fst snd]. split; [exact H3|]. split; [exact H5|]. exists v. split; assumption.
+        * unfold reg_cond. cbn [fst snd]. split; [exact H3|]. split; [exact H5|].
+          split; [exists wc; exact Hck|]. exists v. split; assumption.
         * apply I3. exact Hr.
   Qed.
 
@@ -2037,7 +2117,7 @@ Section Converse.
           apply (G_const f fixed is_lower is_upper stmts consts He Hrc Hte n v H). }
     (* -- assignments_to_actions -- *)
     set (A := assign_exprs stmts).
-    set (known := all_out_names (t_banks tT) ++ map fst consts) in *.
+    set (known := all_out_names (t_banks tT) ++ t_defaulted tT ++ map fst consts) in *.
     rewrite EA in Hacts. fold A in Hacts.
     destruct (a2a_inv f fixed _ _ _ _ _ _ Hacts) as [g [by_out [no_out [order [sacts [Hf [Ht [Hs Hacts']]]]]]]].
     assert (HA1 : NoDup (map fst A)) by (unfold A; rewrite assign_exprs_names; exact A1).
@@ -2046,8 +2126,16 @@ Section Converse.
     assert (HAhas : forall n, has A n = true <-> In n (assigned_names stmts)).
     { intros n. rewrite has_In. apply HAin. }
     destruct (assign_graph_facts A known HA1) as [G1 [G2 G3]].
-    assert (Hknown : forall x, mem_str x known = false <-> ~ In x (bank_outputs stmts) /\ ~ In x (const_names stmts)).
-    { intros x. unfold known. rewrite Hbk, Houts, mem_str_false, in_app_iff, Hkeys. tauto. }
+    assert (Hdfl : forall x, In x (t_defaulted tT) <-> defaulted stmts x).
+    { intros x. unfold tT. rewrite EB.
+      rewrite (step3_banks_defaulted f is_lower is_upper sS consts (bank_decls stmts)).
+      2:{ intros b Hb'. apply (bank_cond_name_ok f is_lower is_upper sS consts b). apply B1. exact Hb'. }
+      cbn [t_defaulted In]. unfold defaulted.
+      change (flat_map specials_of (bank_decls stmts)) with (bank_specials stmts).
+      rewrite EA, has_false. fold A. rewrite HAin. tauto. }
+    assert (Hknown : forall x, mem_str x known = false <->
+              ~ In x (bank_outputs stmts) /\ ~ defaulted stmts x /\ ~ In x (const_names stmts)).
+    { intros x. unfold known. rewrite Hbk, Houts, mem_str_false, !in_app_iff, Hkeys, Hdfl. tauto. }
     assert (Hnotout : forall o, In o (fixed_out_names fixed) -> ~ In o (assigned_names stmts)).
     { intros o Ho Ha. destruct (A2 o Ha) as [H _]. exact (H Ho). }
     assert (Hnoe : forall o, In o (fixed_out_names fixed) -> forall x, ~ gedge (assign_graph A known) x o).
@@ -2105,19 +2193,23 @@ Section Converse.
     - (* consts eval *) intros n e Hne. destruct (R3 n e Hne) as [v [w [H1 [H2 _]]]]. exists v. split; assumption.
     - (* consts width *)
       intros n e Hne. destruct (R3 n e Hne) as [v [w [_ [_ H3]]]]. exists w. apply check_iff. exact H3.
-    - (* init no wire *)
+    - (* init closed *)
       intros x r Hx Hr. unfold bank_regs in Hx. apply in_flat_map in Hx. destruct Hx as [b [Hb' Hx]].
       destruct (B1 b Hb') as [i [o [Hl [_ [_ [_ [_ Hregs]]]]]]]. rewrite Hl in Hx.
       apply in_map_iff in Hx. destruct Hx as [r0 [<- Hr0]]. cbn [reg_init snd] in Hr.
-      destruct (Hregs r0 Hr0) as [Hnw _]. specialize (Hnw r Hr).
-      destruct (has consts r) eqn:Ec.
-      * left. apply Hkeys. apply has_In. exact Ec.
-      * right. cbn [negb] in Hnw. rewrite andb_true_r in Hnw. apply (s_wires_has_false stmts r). exact Hnw.
+      destruct (Hregs r0 Hr0) as [_ [_ [[wc Hckr] _]]].
+      pose proof (check_refs f _ _ _ wc r Hckr Hr) as Hdef. unfold cenv in Hdef.
+      apply Hkeys. apply has_In. unfold has. destruct (lookup consts r); [reflexivity | contradiction Hdef; reflexivity].
+    - (* init width *)
+      intros x Hx. unfold bank_regs in Hx. apply in_flat_map in Hx. destruct Hx as [b [Hb' Hx]].
+      destruct (B1 b Hb') as [i [o [Hl [_ [_ [_ [_ Hregs]]]]]]]. rewrite Hl in Hx.
+      apply in_map_iff in Hx. destruct Hx as [r0 [<- Hr0]]. cbn [reg_init snd].
+      destruct (Hregs r0 Hr0) as [_ [_ [[wc Hckr] _]]]. exists wc. apply check_iff. exact Hckr.
     - (* init eval *)
       intros x Hx. unfold bank_regs in Hx. apply in_flat_map in Hx. destruct Hx as [b [Hb' Hx]].
       destruct (B1 b Hb') as [i [o [Hl [_ [_ [_ [_ Hregs]]]]]]]. rewrite Hl in Hx.
       apply in_map_iff in Hx. destruct Hx as [r0 [<- Hr0]]. cbn [reg_init reg_width fst snd].
-      destruct (Hregs r0 Hr0) as [_ [_ Hev]]. exact Hev.
+      destruct (Hregs r0 Hr0) as [_ [_ [_ Hev]]]. exact Hev.
     - (* assigned once *) exact A1.
     - (* no driver *)
       intros n Hn. destruct (A2 n Hn) as [H1 [H2 H3]]. split; [exact H1|]. split; [exact H2|].
@@ -2140,15 +2232,16 @@ Section Converse.
     - (* reads driven *)
       intros y e x Hye Hx. destruct (mem_str x known) eqn:Ek.
       + apply mem_str_In in Ek. unfold known in Ek. rewrite Hbk, Houts in Ek. apply in_app_iff in Ek.
-        destruct Ek as [Ek|Ek]; [right; left; exact Ek | left; apply Hkeys; exact Ek].
+        destruct Ek as [Ek|Ek]; [right; left; exact Ek|]. apply in_app_iff in Ek.
+        destruct Ek as [Ek|Ek]; [right; right; left; apply Hdfl in Ek; apply Ek | left; apply Hkeys; exact Ek].
       + assert (Hedge : gedge (assign_graph A known) x y).
         { apply G2. exists e. split; [exact Hye|]. split; [exact Hx | exact Ek]. }
         assert (Hnode : In x order).
         { apply L2. apply P3. apply (gedge_source_node _ x y G1 Hedge). }
         destruct (Forall2_In_l _ _ _ _ HF Hnode) as [a [_ Hem]].
         destruct Hem as [[e0 [w [we [H1 _]]]]|[_ [c [H1 _]]]].
-        * right. right. left. apply HAhas. apply has_lookup. exists e0. exact H1.
-        * right. right. right. destruct (Hby x c H1) as [Hx0|[Hc [[w Ho] Hall]]]; [discriminate Hx0|].
+        * right. right. right. left. apply HAhas. apply has_lookup. exists e0. exact H1.
+        * right. right. right. right. destruct (Hby x c H1) as [Hx0|[Hc [[w Ho] Hall]]]; [discriminate Hx0|].
           exists c, w. split; [exact Hc|]. split; [exact Ho|]. apply Hall_iff. exact Hall.
     - (* assign widths *)
       intros n e w Hne HGn.
@@ -2159,8 +2252,8 @@ Section Converse.
       exists we. split; [apply check_iff; exact H3 | exact H4].
     - (* acyclic *)
       apply (no_cycle_acyclic (wire_reads fixed stmts) g); [|exact Hacyc].
-      intros a b [[e [H1 [H2 [H3 H4]]]]|[c [w [Hc [Hia [Ho Hi]]]]]]; apply F3.
-      + left. apply G2. exists e. split; [exact H1|]. split; [exact H2|]. apply Hknown. split; assumption.
+      intros a b [[e [H1 [H2 [H3 [H4 H5]]]]]|[c [w [Hc [Hia [Ho Hi]]]]]]; apply F3.
+      + left. apply G2. exists e. split; [exact H1|]. split; [exact H2|]. apply Hknown. split; [exact H4|]. split; assumption.
       + right. exists c, w. split; [exact Hc|]. split; [apply Hall_iff; exact Hia|]. split; assumption.
   Qed.
 End Converse.
@@ -2272,14 +2365,18 @@ Example tight_consts_eval : diags "const A = 1 / 0; pc = 0; Stat = 1;" = [Divisi
 Proof. vm_compute. reflexivity. Qed.
 Example tight_consts_width : diags "const A = 0b11 & 0b111; pc = 0; Stat = 1;" = [MismatchedExprWidths].
 Proof. vm_compute. reflexivity. Qed.
-Example tight_init_no_wire :
-  diags "wire w : 8; w = 1; register xY { a : 8 = w; } x_a = Y_a; pc = 0; Stat = 1;" = [NonConstantWireRead].
-Proof. vm_compute. reflexivity. Qed.
+Example tight_init_closed :
+  diags "wire w : 8; w = 1; register xY { a : 8 = w; } x_a = Y_a; pc = 0; Stat = 1;" = [NonConstantWireRead] /\
+  diags "register xY { a : 8 = nosuch; } x_a = Y_a; pc = 0; Stat = 1;" = [UndeclaredWireRead].
+Proof. vm_compute. split; reflexivity. Qed.
+Example tight_init_width :
+  diags "register xY { a : 8 = 0b11 & 0b111; } x_a = Y_a; pc = 0; Stat = 1;" = [MismatchedExprWidths] /\
+  diags "register xY { a : 5 = (0b11)[0..5]; } x_a = Y_a; pc = 0; Stat = 1;" = [InvalidBitIndex].
+Proof. vm_compute. split; reflexivity. Qed.
 Example tight_init_eval :
   diags "register xY { a : 8 = 1 / 0; } x_a = Y_a; pc = 0; Stat = 1;" = [DivisionByZero] /\
-  diags "register xY { a : 8 = 0b11; } x_a = Y_a; pc = 0; Stat = 1;" = [MismatchedRegisterDefaultWidths] /\
-  diags "register xY { a : 8 = nosuch; } x_a = Y_a; pc = 0; Stat = 1;" = [UndeclaredWireRead].
-Proof. vm_compute. repeat split; reflexivity. Qed.
+  diags "register xY { a : 8 = 0b11; } x_a = Y_a; pc = 0; Stat = 1;" = [MismatchedRegisterDefaultWidths].
+Proof. vm_compute. split; reflexivity. Qed.
 Example tight_assigned_once : diags "pc = 0; pc = 1; Stat = 1;" = [DoubleAssignedWire].
 Proof. vm_compute. reflexivity. Qed.
 Example tight_no_driver :
@@ -2303,49 +2400,52 @@ Example tight_partial_disabled :
 Proof. vm_compute. repeat split; reflexivity. Qed.
 Example tight_reads_driven :
   diags "wire x : 64; x = reg_outputA; pc = 0; Stat = 1;" = [UnsetBuiltinWire] /\
-  diags "wire x : 64; x = mem_addr; pc = 0; Stat = 1;" = [UnsetUndeclaredWire] /\
-  diags "register xY { a : 8 = 0; } x_a = Y_a; wire z : 1; z = stall_Y; pc = 0; Stat = 1;" = [UnsetUndeclaredWire].
-Proof. vm_compute. repeat split; reflexivity. Qed.
+  diags "wire x : 64; x = mem_addr; pc = 0; Stat = 1;" = [UnsetUndeclaredWire].
+Proof. vm_compute. split; reflexivity. Qed.
 Example tight_assign_widths :
   diags "wire x : 8; x = 0b11; pc = 0; Stat = 1;" = [MismatchedWireWidths] /\
   diags "wire x : 8; x = nosuch; pc = 0; Stat = 1;" = [UndeclaredWireRead; UnsetUndeclaredWire].
 Proof. vm_compute. split; reflexivity. Qed.
 Example tight_acyclic :
   diags "wire x : 8, y : 8; x = y; y = x; pc = 0; Stat = 1;" = [WireLoop] /\
-  diags "reg_srcA = reg_outputA[0..4]; pc = 0; Stat = 1;" = [WireLoop].
-Proof. vm_compute. split; reflexivity. Qed.
+  diags "reg_srcA = reg_outputA[0..4]; pc = 0; Stat = 1;" = [WireLoop] /\
+  (* assigned control signals take part in cycles like any wire *)
+  diags "register xY { a : 8 = 0; } x_a = Y_a; stall_Y = bubble_Y; bubble_Y = stall_Y; pc = 0; Stat = 1;" = [WireLoop].
+Proof. vm_compute. repeat split; reflexivity. Qed.
 
 (* none of the rejected programs above is fault free, e.g. *)
 Example tight_not_fault_free : ~ gfault_free (hcl "wire x : 8, y : 8; x = y; y = x; pc = 0; Stat = 1;").
 Proof. apply rejected_not_fault_free. vm_compute. reflexivity. Qed.
 
-(* ---- FINDING: what acceptance does NOT guarantee about register initial values --------------- *)
-(* the stronger clause one would expect - an initial value reads declared constants only - is not
-   enforced: initial values are never passed to the width checker, only evaluated, and the
-   evaluator is lazy in case expressions.  Accepted although "nosuch" is declared nowhere: *)
-Definition ex_init_undeclared : string :=
-  "register xY { a : 64 = [ 1 : 0; 1 : nosuch ]; } x_a = Y_a; pc = Y_a; Stat = 1;".
-
-Example init_reads_undeclared_accepted :
-  let prog := hcl ex_init_undeclared in
-  is_ok (gbuild prog) = true /\
-  In "nosuch" (flat_map (fun x => refs (reg_init x)) (bank_regs prog)) /\
-  ~ In "nosuch" (const_names prog ++ wire_names prog ++ fixed_names gen_fixed ++
-                 bank_signal_names prog ++ bank_specials prog).
-Proof.
-  cbv zeta. split; [vm_compute; reflexivity|]. split; [vm_compute; left; reflexivity|].
-  vm_compute. intros H. repeat (destruct H as [H|H]; [discriminate H|]). exact H.
-Qed.
-
-(* ... and although the initial value has a width fault (a slice beyond its operand; case arms of
-   different widths): *)
-Example init_width_fault_accepted :
-  diags "register xY { a : 5 = (0b11)[0..5]; } x_a = Y_a; pc = 0; Stat = 1;" = [] /\
-  diags "register xY { a : 1 = [ 1 : 0b1; 1 : 0b11 ]; } x_a = Y_a; pc = 0; Stat = 1;" = [] /\
-  (* the same expressions are rejected in a constant and in an assignment *)
-  diags "const K = (0b11)[0..5]; pc = 0; Stat = 1;" = [InvalidBitIndex] /\
-  diags "const K = [ 1 : 0b1; 1 : 0b11 ]; pc = 0; Stat = 1;" = [MultipleMuxDefaultOption].
+(* ---- the two repaired defects (F19, F20): their replay programs ---------------------------------- *)
+(* F19: register initial values are now width-checked against the constants, like constants: the
+   three replay programs - an undeclared name in an arm never evaluated, a slice beyond its operand,
+   case arms of different widths - are rejected *)
+Example f19_replays_rejected :
+  diags "register xY { a : 64 = [ 1 : 0; 1 : nosuch ]; } x_a = Y_a; pc = Y_a; Stat = 1;" = [UndeclaredWireRead] /\
+  diags "register xY { a : 5 = (0b11)[0..5]; } x_a = Y_a; pc = 0; Stat = 1;" = [InvalidBitIndex] /\
+  diags "register xY { a : 1 = [ 1 : 0b1; 1 : 0b11 ]; } x_a = Y_a; pc = 0; Stat = 1;" = [MultipleMuxDefaultOption].
 Proof. vm_compute. repeat split; reflexivity. Qed.
+
+(* F20: a bank's stall_X / bubble_X that the program leaves unassigned may be read *)
+Definition ex_f20 : string :=
+  "register xY { a : 8 = 0; } x_a = Y_a; wire z : 1; z = stall_Y; pc = 0; Stat = 1;".
+Example f20_replay_accepted : diags ex_f20 = [] /\ gfault_free (hcl ex_f20).
+Proof. split; [vm_compute; reflexivity | apply accepted_by_computation; vm_compute; reflexivity]. Qed.
+(* ... but only a signal of a declared bank *)
+Example f20_other_bank_rejected :
+  diags "register xY { a : 8 = 0; } x_a = Y_a; wire z : 1; z = stall_Z; pc = 0; Stat = 1;"
+    = [UndeclaredWireRead; UnsetUndeclaredWire].
+Proof. vm_compute. reflexivity. Qed.
+
+(* the "closed" clauses follow from the width clauses (a name without a width has no judgement);
+   they are kept because the property names the fault separately *)
+Lemma has_width_refs f cv e w r :
+  has_width f (cwidth cv) cv e w -> In r (refs e) -> cv r <> None.
+Proof.
+  intros H Hr. apply check_iff in H. pose proof (check_refs f _ _ e w r H Hr) as Hd.
+  unfold cwidth in Hd. destruct (cv r); [discriminate | contradiction Hd; reflexivity].
+Qed.
 
 (* ---- why the converse needs a hypothesis on the table ------------------------------------------ *)
 (* a table with a built-in input shaped like a register-bank signal: the program is accepted (the
@@ -2407,6 +2507,7 @@ Proof.
   - intros n e [].
   - intros x r [].
   - intros x [].
+  - intros x [].
   - constructor; [intros [] | constructor].
   - intros n [<-|[]]. split; [vm_compute; intros [H|[]]; discriminate H|]. split; intros [].
   - intros n [<-|[]]. vm_compute. discriminate.
@@ -2432,4 +2533,4 @@ Print Assumptions accepted_iff_fault_free_gen_holds.
 Print Assumptions ex_pipeline_fault_free.
 Print Assumptions odd_table_accepted_not_fault_free.
 Print Assumptions table_distinct_needed.
-Print Assumptions init_reads_undeclared_accepted.
+Print Assumptions f20_replay_accepted.
